@@ -125,8 +125,10 @@ M['S8_file_next_back_off_by_one'] = [(LSF, '''            self.iter_pos += 1;
                 .copied()''')]
 M['S9_sofa_entry_flagged_iers'] = [(LS, 'LeapSecond::new(2_148_508_800.0, 4.21317, false),  // SOFA: 01 Feb 1968',
                                        'LeapSecond::new(2_148_508_800.0, 4.21317, true),   // SOFA: 01 Feb 1968')]
-M['S10_lookup_strictly_after'] = [(MOD, 'if self.to_tai_duration().to_seconds() >= leap_second.timestamp_tai_s',
-                                        'if self.to_tai_duration().to_seconds() > leap_second.timestamp_tai_s')]
+M['S10_lookup_strictly_after'] = [(MOD, 'if tai_duration >= leap_second.timestamp_tai_s.seconds()',
+                                        'if tai_duration > leap_second.timestamp_tai_s.seconds()')]
+M['S15_f64_lookup_regression'] = [(MOD, 'if tai_duration >= leap_second.timestamp_tai_s.seconds()',
+                                        'if tai_duration.to_seconds() >= leap_second.timestamp_tai_s')]
 M['S11_iers_only_ignored_for_file'] = [(LSF, 'announced_by_iers: true,', 'announced_by_iers: false,')]
 M['S13_crlf_last_column_breaks'] = [(LSF, 'for line in contents.lines() {', "for line in contents.split('\\n') {"),
                                      (LSF, 'let data: Vec<&str> = line.split_whitespace().collect();', "let data: Vec<&str> = line.split(|c| c == ' ' || c == '\\t').filter(|s| !s.is_empty()).collect();")]
